@@ -163,11 +163,27 @@ Fixpoint flat_of (f : filter) : flat :=
   | FAnd l => [[flat_expr (fold_right (fun g acc => join_and (flat_of g) acc) [] l)]]      (* parenthesised *)
   | FOr l => [[flat_expr (fold_right (fun g acc => flat_of g ++ acc) [] l)]]               (* parenthesised *)
   | FNot g => not_flat (flat_of g)
-  | FHas all c vs => if all then [List.map (pos_gt0 c) vs] else List.map (fun v => [pos_gt0 c v]) vs
+  | FHas all c vs =>
+      let d := if all then [List.map (pos_gt0 c) vs] else List.map (fun v => [pos_gt0 c v]) vs in
+      if Nat.leb 2 (length vs) then [[flat_expr d]] else d       (* repaired code: several values are parenthesised *)
   end.
 (* the WHERE clause of several filters: joined with AND, no parentheses *)
 Definition where_flat (fs : list filter) : flat := fold_right (fun g acc => join_and (flat_of g) acc) [] fs.
 Definition where_ast (fs : list filter) : sexpr := flat_expr (where_flat fs).
+
+(* the generator before the repair (HAS lists without parentheses) *)
+Fixpoint flat_of_old (f : filter) : flat :=
+  match f with
+  | FCmp o a b => [[SCmp o (sop a) (sop b)]]
+  | FIsNull c => [[SIsNull (SCol c)]]
+  | FAnd l => [[flat_expr (fold_right (fun g acc => join_and (flat_of_old g) acc) [] l)]]      (* parenthesised *)
+  | FOr l => [[flat_expr (fold_right (fun g acc => flat_of_old g ++ acc) [] l)]]               (* parenthesised *)
+  | FNot g => not_flat (flat_of_old g)
+  | FHas all c vs => if all then [List.map (pos_gt0 c) vs] else List.map (fun v => [pos_gt0 c v]) vs
+  end.
+(* the WHERE clause of several filters: joined with AND, no parentheses *)
+Definition where_flat_old (fs : list filter) : flat := fold_right (fun g acc => join_and (flat_of_old g) acc) [] fs.
+Definition where_ast_old (fs : list filter) : sexpr := flat_expr (where_flat_old fs).
 
 (* precedence-safety: where the missing parentheses do not matter *)
 Definition single_atom (d : flat) : bool := match d with [[_]] => true | _ => false end.
@@ -178,6 +194,14 @@ Fixpoint safe (f : filter) : bool :=
   | FAnd l => forallb (fun g => safe g && single_conj (flat_of g)) l && Nat.leb 2 (length l)
   | FOr l => forallb safe l && Nat.leb 2 (length l)
   | FNot g => safe g && single_atom (flat_of g)
+  | FHas _ _ vs => Nat.leb 1 (length vs)
+  end.
+(* the documented grammar: AND / OR take two or more sub-expressions, HAS / HASALL at least one value *)
+Fixpoint wf (f : filter) : bool :=
+  match f with
+  | FCmp _ _ _ | FIsNull _ => true
+  | FAnd l | FOr l => forallb wf l && Nat.leb 2 (length l)
+  | FNot g => wf g
   | FHas _ _ vs => Nat.leb 1 (length vs)
   end.
 Definition safe_where (fs : list filter) : bool :=
@@ -214,12 +238,30 @@ Fixpoint gen_filter (f : filter) : out :=
   | FAnd l => fx "(" [Op "("] +++ ojoin (infix_sep (fx " AND " [Wd "AND"])) (List.map gen_filter l) +++ fx ")" [Op ")"]
   | FOr l => fx "(" [Op "("] +++ ojoin (infix_sep (fx " OR " [Wd "OR"])) (List.map gen_filter l) +++ fx ")" [Op ")"]
   | FNot g => fx " NOT " [Wd "NOT"] +++ fx " " [] +++ gen_filter g
-  | FHas all c vs => ojoin (if all then fx " AND " [Wd "AND"] else fx " OR " [Wd "OR"]) (List.map (gen_pos c) vs)
+  | FHas all c vs =>
+      let body := ojoin (if all then fx " AND " [Wd "AND"] else fx " OR " [Wd "OR"]) (List.map (gen_pos c) vs) in
+      if Nat.leb 2 (length vs) then fx "(" [Op "("] +++ body +++ fx ")" [Op ")"] else body
   end.
 Definition gen_where (fs : list filter) : out :=
   match fs with
   | [] => onil
   | _ => fx "WHERE " [Wd "WHERE"] +++ ojoin (fx " AND " [Wd "AND"]) (List.map gen_filter fs)
+  end.
+
+(* the text before the repair *)
+Fixpoint gen_filter_old (f : filter) : out :=
+  match f with
+  | FCmp o a b => fx "(" [Op "("] +++ gen_operand a +++ infix_sep (cmp_out o) +++ gen_operand b +++ fx ")" [Op ")"]
+  | FIsNull c => fx "(" [Op "("] +++ (sql_ident c, [TId c]) +++ fx " IS NULL " [Wd "IS"; Wd "NULL"] +++ fx ")" [Op ")"]
+  | FAnd l => fx "(" [Op "("] +++ ojoin (infix_sep (fx " AND " [Wd "AND"])) (List.map gen_filter_old l) +++ fx ")" [Op ")"]
+  | FOr l => fx "(" [Op "("] +++ ojoin (infix_sep (fx " OR " [Wd "OR"])) (List.map gen_filter_old l) +++ fx ")" [Op ")"]
+  | FNot g => fx " NOT " [Wd "NOT"] +++ fx " " [] +++ gen_filter_old g
+  | FHas all c vs => ojoin (if all then fx " AND " [Wd "AND"] else fx " OR " [Wd "OR"]) (List.map (gen_pos c) vs)
+  end.
+Definition gen_where_old (fs : list filter) : out :=
+  match fs with
+  | [] => onil
+  | _ => fx "WHERE " [Wd "WHERE"] +++ ojoin (fx " AND " [Wd "AND"]) (List.map gen_filter_old fs)
   end.
 
 (* ------------------------------------------------------------------ parser: token stream -> sexpr (SQL precedence) *)
